@@ -9,7 +9,7 @@ import sys
 ROOT = os.path.join(os.path.dirname(os.path.dirname(os.path.abspath(__file__))), "coq", "theories")
 
 
-STANDALONE = {"AckProofs", "LocksProofs", "LedgerProofs", "LedgerUpdProofs", "PoolProofs", "WindowProofs", "MicroProofs", "MicroStats", "MicroBound", "MicroBal", "MicroAll", "MicroProv", "MicroLedger", "MicroFifo", "MicroAck", "PrecondProofs"}
+STANDALONE = {"AckProofs", "LocksProofs", "LedgerProofs", "LedgerUpdProofs", "PoolProofs", "WindowProofs", "MicroProofs", "MicroStats", "MicroBound", "MicroBal", "MicroAll", "MicroProv", "MicroLedger", "MicroFifo", "MicroAck", "MicroPut", "PrecondProofs"}
 
 
 def statements(modname):
@@ -105,7 +105,8 @@ spec("C13_micro", "shutdown() split into its stages: the flag is final and refus
     ("MicroAck", "micro_draining_no_pending_all", None), ("MicroAck", "micro_ack_pending_iff_all", None),
     ("MicroAll", "micro_shut_stable_all", None), (M, "micro_shut_stable", None), (M, "micro_after_flag_refused", None), (M, "mcall_atomic", "shutdown_stages_compose"),
 ])
-spec("C07_micro", "put split at its schedule points: the race between two puts of one key", [M], [
+spec("C07_micro", "put split at its schedule points: both presence checks from any state; the race between two puts of one key", [M, "MicroPut"], [
+    ("MicroPut", "micro_put_check_present", None), ("MicroPut", "micro_put_check_absent", None), ("MicroPut", "micro_worker_put_status", None),
     (M, "racing_puts_one_wins", None), (M, "minv_run", None), (M, "mcall_atomic", None), (M, "mput_atomic", None),
 ])
 spec("C08_micro", "put_or_update behind the flag check is Window.v's first half", [M], [
@@ -126,8 +127,8 @@ spec("C03_micro", "No spurious loss through a sweep at any state of any interlea
 spec("C15_micro", "Hit accounting with reads split between the store lookup and the access record", [M, "MicroStats"], [
     ("MicroStats", "micro_hits_accounted_run", None), ("MicroStats", "read_in_flight_witness", None), (M, "mcall_atomic", None),
 ])
-spec("C02_micro", "Reads split at their schedule points", [M, "MicroBal", "MicroAll", "MicroProv"], [
-    ("MicroProv", "micro_store_value_provenance", None), (M, "mcall_atomic", None), ("MicroAll", "micro_hidden_run", "deleted_value_never_returned_micro"),
+spec("C02_micro", "Reads split at their schedule points", [M, "MicroBal", "MicroAll", "MicroProv", "MicroPut"], [
+    ("MicroProv", "micro_store_value_provenance", None), ("MicroPut", "micro_read_decides_at_lookup", None), ("MicroPut", "micro_hit_returns_lookup_value", None), (M, "mcall_atomic", None), ("MicroAll", "micro_hidden_run", "deleted_value_never_returned_micro"),
 ])
 spec("C11_micro", "Writes split between building the command and sending it; the queue at every micro step", [M, "MicroFifo", "MicroAck"], [
     ("MicroFifo", "micro_queue_fifo_all", None), ("MicroFifo", "micro_worker_one_at_a_time", None),
